@@ -6,6 +6,7 @@ import (
 	"encoding/binary"
 	"errors"
 	"fmt"
+	"maps"
 	"math"
 	"slices"
 	"sort"
@@ -903,9 +904,66 @@ func extractDataRegexes(qs query.ConditionsSet, refTime time.Time, tagDetails ma
 	return &dataConditions
 }
 
+// decideTagsWithSubQueries evaluates the tags that qs uses, directly or through other undecided tags, and that are not
+// decided for all streams, when their own query uses sub queries: the conditions of such a tag can't replace the filter
+// on the tag, "no stream x exists that ..." is nothing a set of alternatives can express when the filter is negated.
+// The result is tagDetails with these tags decided, tagDetails itself is not modified.
+func decideTagsWithSubQueries(ctx context.Context, indexes []*Reader, qs query.ConditionsSet, tagDetails map[string]query.TagDetails, converters map[string]ConverterAccess) (map[string]query.TagDetails, error) {
+	decided := (map[string]query.TagDetails)(nil)
+	seen := map[string]struct{}{}
+	visit := (func(query.ConditionsSet) error)(nil)
+	visit = func(cs query.ConditionsSet) error {
+		f := cs.Features()
+		for _, tn := range append(append([]string(nil), f.MainTags...), f.SubQueryTags...) {
+			if _, ok := seen[tn]; ok {
+				continue
+			}
+			seen[tn] = struct{}{}
+			td, ok := tagDetails[tn]
+			if !ok || td.Uncertain.IsZero() {
+				continue
+			}
+			if len(td.Conditions.SubQueries()) <= 1 {
+				// the conditions of this tag replace the filter, the tags they use are used by the search as well
+				if err := visit(td.Conditions); err != nil {
+					return err
+				}
+				continue
+			}
+			uncertain := td.Uncertain
+			matches, _, _, err := SearchStreams(ctx, indexes, &uncertain, td.ReferenceTime, td.Conditions, nil, []query.Sorting{{Key: query.SortingKeyID, Dir: query.SortingDirAscending}}, 0, 0, tagDetails, converters, false)
+			if err != nil {
+				return err
+			}
+			td.Matches = td.Matches.Copy()
+			td.Matches.Sub(uncertain)
+			for _, s := range matches {
+				td.Matches.Set(uint(s.StreamID))
+			}
+			td.Uncertain = bitmask.LongBitmask{}
+			if decided == nil {
+				decided = maps.Clone(tagDetails)
+			}
+			decided[tn] = td
+		}
+		return nil
+	}
+	if err := visit(qs); err != nil {
+		return nil, err
+	}
+	if decided == nil {
+		return tagDetails, nil
+	}
+	return decided, nil
+}
+
 func SearchStreams(ctx context.Context, indexes []*Reader, limitIDs *bitmask.LongBitmask, refTime time.Time, qs query.ConditionsSet, grouping *query.Grouping, sorting []query.Sorting, limit, skip uint, tagDetails map[string]query.TagDetails, converters map[string]ConverterAccess, extractRegexes bool) ([]*Stream, bool, *DataRegexes, error) {
 	if len(qs) == 0 {
 		return nil, false, nil, nil
+	}
+	tagDetails, err := decideTagsWithSubQueries(ctx, indexes, qs, tagDetails, converters)
+	if err != nil {
+		return nil, false, nil, err
 	}
 	qs = qs.InlineTagFilters(tagDetails, refTime)
 
